@@ -31,7 +31,7 @@ var dirPool = []string{"a", "b", "a b", "a-b", "a.b", "a!", "lib", "library", "l
 var basePool = []string{"hook", "run", "00-f", "z!", "Hook", "cmd", "ctxt", "dump-to-json", "render_yaml", "yaml", "restart-systemd"}
 var extPool = []string{".sh", ".py", "", ".yaml", ".json", ".md", ".txt", ".yml", ".sh.txt", ".txt.sh"}
 var modePool = []uint32{0o644, 0o600, 0o755, 0o700, 0o100, 0o010, 0o001, 0o111, 0o750, 0o755, 0o755}
-var cfgPool = []string{"valid-json", "valid-json", "valid-json", "valid-yaml", "valid-yaml", "valid-schedule", "valid-json", "valid-json", "exit1", "badtype", "badversion", "unknownfield", "garbage"}
+var cfgPool = []string{"valid-json", "valid-json", "valid-json", "valid-yaml", "valid-yaml", "valid-schedule", "valid-settings-only", "valid-json", "valid-json", "exit1", "badtype", "badversion", "unknownfield", "garbage"}
 
 func configText(kind string) (string, int) {
 	switch kind {
@@ -41,6 +41,9 @@ func configText(kind string) (string, int) {
 		return "configVersion: v1\nonStartup: 1\n", 0
 	case "valid-schedule":
 		return `{"configVersion":"v1","schedule":[{"name":"s","crontab":"* * * * *"}]}`, 0
+	case "valid-settings-only":
+		// a valid configuration without any binding: the file is a hook all the same
+		return `{"configVersion":"v1","settings":{"executionMinInterval":"3s","executionBurst":1}}`, 0
 	case "exit1":
 		return `{"configVersion":"v1","onStartup":5}`, 1
 	case "badtype":
